@@ -19,6 +19,15 @@ EXTENDS Naturals, Integers, Sequences, Word
 \* Loading returns a model or an error (never a panic, an abort or a hang).
 LegalLoadOutcome(o) == o \in {"ok", "err"}
 
+\* Memory reserved while loading is proportional to the bytes present in the
+\* file: largest single allocation requested during a load of an n-byte file
+\* (the constant covers the operator registry, graph tables and the decoder's
+\* buffers).  Reported as DRIFT when exceeded (rten documents that it does not
+\* bound memory); an allocation failure or capacity-overflow panic is a
+\* violation of LegalLoadOutcome by itself.
+LoadAllocBound(n) == 64 * n + 16777216
+BoundedLoadAlloc(maxalloc, n) == WLe(maxalloc, FromNat(LoadAllocBound(n)))
+
 \* A constant of a loaded model: `shape` (sequence of Words), `count` = the
 \* number of elements the tensor reports, `backing` = number of elements of
 \* the storage slice behind it.
